@@ -138,11 +138,16 @@ func fixMTrainPlatformsInBushwick(trip *gtfsrt.TripUpdate) {
 		if !buggyStationIDs[stopID[:3]] {
 			continue
 		}
-		newDirection := 'N'
-		if stopID[3] == 'N' {
-			newDirection = 'S'
+		var newDirection string
+		switch stopID[3] {
+		case 'N':
+			newDirection = "S"
+		case 'S':
+			newDirection = "N"
+		default:
+			continue
 		}
-		newStopID := stopID[:3] + string(newDirection)
+		newStopID := stopID[:3] + newDirection
 		stopTimeUpdate.StopId = &newStopID
 	}
 }
